@@ -290,7 +290,7 @@ class _Ctx:
         self.cli = cli
         self.CliRunner = CliRunner
 
-    def write(self, path, records):
+    def write(self, path, records, bare=False):
         """records: list of (rate, [trial types]) -> one result file written by the real writer."""
         np = self.np
         batch = self.BatchSimulation(path, verbose=False)
@@ -306,6 +306,17 @@ class _Ctx:
             sim._results['wall_time'] = 0.25 * len(types)
             batch.append(sim)
         batch.save_file()
+        if bare and len(records) == 1:
+            # the same record as a bare {'inputs', 'results'} dict at top level (read_entry accepts a dict as
+            # well as a list): a legitimate plain container holding one repeated-run record
+            import gzip
+            import json
+            opener = gzip.open if path.endswith('.gz') else open
+            with opener(path, 'rt') as f:
+                data = json.load(f)
+            if isinstance(data, list) and len(data) == 1:
+                with opener(path, 'wt') as f:
+                    json.dump(data[0], f)
 
     def analyse(self, paths):
         """Run the real pipeline; return {rate: {column: value}} and the number of raw records."""
@@ -359,7 +370,7 @@ def _build(ctx, d, files, kinds, order):
         sub = d if kind in ('json', 'gz') else os.path.join(d, 'tmp')
         os.makedirs(sub, exist_ok=True)
         path = os.path.join(sub, 'f%d%s' % (i, ext))
-        ctx.write(path, files[i])
+        ctx.write(path, files[i], bare=(len(files[i]) == 1 and (i + len(files)) % 2 == 0))
         if kind == 'zip':
             zipped.append((pos, path))
         elif kind == 'merged':
